@@ -4,6 +4,7 @@ package main
 // ghost lock state, event trace, and the script being built for this path.
 
 import (
+	"regexp"
 	"fmt"
 	"go/types"
 	"strings"
@@ -142,7 +143,12 @@ func (st *State) check(o *Obligation, goal Term) {
 	o.Goal = goal.S
 	if goal.S != "true" {
 		st.items = append(st.items, Item{Kind: ItCheck, Text: goal.S, Obl: o})
-		st.assume(goal)
+		// After a check the execution continues under the checked condition - except for the lock
+		// discipline: a thread that reads or writes a guarded field without the lock does run on,
+		// so assuming "the lock is held" would make everything after a racy access vacuous.
+		if !lockDisciplineObl(o) {
+			st.assume(goal)
+		}
 	} else {
 		st.items = append(st.items, Item{Kind: ItCheck, Text: "true", Obl: o})
 	}
@@ -657,4 +663,20 @@ func (st *State) storeCell(t types.Type, ref Term, v Val) {
 		st.hset(name, Store(arr, ref, cs[k]))
 	}
 	st.publish(v)
+}
+
+var heldInText = regexp.MustCompile(`\bw?held\(`)
+
+// lockDisciplineObl: obligations about holding a lock (lockset checks, requires held/wheld at call sites).
+// A re-lock is different: sync.Mutex.Lock on a mutex the thread already holds never returns, so the
+// execution does continue only if the mutex was free.
+func lockDisciplineObl(o *Obligation) bool {
+	switch o.Kind {
+	case "race-read", "race-write", "immutable-write":
+		return true
+	}
+	if strings.HasPrefix(o.Kind, "pre@") && heldInText.MatchString(o.ID) {
+		return true
+	}
+	return false
 }
